@@ -61,11 +61,12 @@ def drain (s : St) : St := { queue := [], trace := s.trace ++ s.queue.map Ev.got
 
 /-! ## a receive into a caller buffer of `cap` bytes -/
 
-/-- `chan`: `msg[..buf.len()].copy_from_slice(&buf)` — a datagram longer than the buffer is a slice panic; `unix`:
-`recv_from` truncates. Both return the datagram and its length when it fits. -/
+/-- a datagram that fits is returned whole with its length, on both transports. One that does not fit: `unix`
+(`recv_from`) truncates it to the buffer; `chan` refuses it with an error and drops it (before the repair F13 the
+unchecked `msg[..buf.len()].copy_from_slice(&buf)` was a slice panic). -/
 def recvInto (cap : Nat) (chan : Bool) (d : Dgram) : Out (Nat × Bytes) :=
   if d.bytes.length ≤ cap then .ok (d.bytes.length, d.bytes)
-  else if chan then .panic else .ok (cap, d.bytes.take cap)
+  else if chan then .err else .ok (cap, d.bytes.take cap)
 
 /-! ## the send handle (`BackendSender`): a weak reference to the socket -/
 
